@@ -1,27 +1,296 @@
-//! C18 — stub, not built yet.
+//! C18 Text validation accepts unchanged text and flags changed text.
 
 use crate::engine::*;
+use crate::hist::*;
+use crate::props::c05::{ordered_doc, TempDir};
 use proptest::prelude::*;
+use serde::{Deserialize, Serialize};
+use stam::*;
 
 pub struct C18;
 
+#[derive(Clone, Debug, Serialize, Deserialize)]
+pub enum Edit {
+    /// replace the codepoint at the position by another one
+    Substitute { res: u16, pos: u16, with: char },
+    Insert { res: u16, pos: u16, what: String },
+    Delete { res: u16, pos: u16, len: u8 },
+}
+
+#[derive(Clone, Debug, Serialize, Deserialize)]
+pub struct Case {
+    pub hist: History,
+    /// 0 checksum, 1 text, 2 both, 3 auto
+    pub mode: u8,
+    pub edit: Edit,
+    /// reload through CBOR (instead of JSON) for the unchanged-text half
+    pub cbor: bool,
+}
+
+fn mode_of(m: u8) -> TextValidationMode {
+    match m % 4 {
+        0 => TextValidationMode::Checksum,
+        1 => TextValidationMode::Text,
+        2 => TextValidationMode::Both,
+        _ => TextValidationMode::Auto,
+    }
+}
+
+/// (annotation ordinal, joined text, selects text?) for every annotation
+fn texts(store: &AnnotationStore) -> Vec<(usize, String, Option<bool>)> {
+    store
+        .annotations()
+        .enumerate()
+        .map(|(i, a)| (i, a.text_join(""), a.validate_text()))
+        .collect()
+}
+
 impl Property for C18 {
-    type Case = u8;
+    type Case = Case;
     fn id(&self) -> &'static str {
         "C18"
     }
     fn rule(&self) -> String {
-        "not built yet".into()
+        "case = final store of a C01 history (texts up to 70 codepoints so that both sides of the 40-codepoint 'auto' threshold occur; all selector kinds incl. relative and complex ones) x protection mode {checksum, text, both, auto} x one edit of one resource text (substitute / insert / delete at any position). Oracle: after protect_text, validate_text() reports invalid = 0, valid = number of annotations selecting non-empty text, every such annotation validates to Some(true); the same after a save and reload (STAM JSON or CBOR); after reloading the JSON with the edited text (a reload error because an offset no longer fits is an accepted outcome) an annotation validates to Some(false) exactly when the text it now selects differs from the text it selected when it was protected, and to Some(true) otherwise. Non-trivial = the edit changes the selected text of at least one annotation and leaves at least one other protected annotation untouched; distinct = distinct case JSON.".into()
     }
-    fn cases(&self, _tier: Tier) -> u64 {
-        0
+    fn assumptions(&self) -> Vec<String> {
+        vec![
+            "the text an annotation selects after the edit is taken from the library's own offset resolution (decided by C04), the validation verdict is what is checked here".into(),
+            "no delimiter key is used (the validation delimiter is the empty string)".into(),
+        ]
     }
-    fn strategy(&self, _tier: Tier) -> BoxedStrategy<u8> {
-        any::<u8>().boxed()
+    fn cases(&self, tier: Tier) -> u64 {
+        tier.pick(30_000, 600_000)
     }
-    fn run(&self, _case: &u8) -> Outcome {
-        let mut o = Outcome::new();
-        o.skip("not built");
-        o
+    fn strategy(&self, tier: Tier) -> BoxedStrategy<Case> {
+        let cfg = HistCfg {
+            max_ops: tier.pick(12, 30),
+            text_max: 70,
+            removal_weight: 1,
+            protect_weight: 0,
+            complex_weight: 2,
+            ..HistCfg::default()
+        };
+        let edit = prop_oneof![
+            4 => (any::<u16>(), any::<u16>(), proptest::sample::select(vec!['z', 'é', '日', '😀', ' ', 'a'])).prop_map(|(res, pos, with)| Edit::Substitute { res, pos, with }),
+            2 => (any::<u16>(), any::<u16>(), text_strategy(3)).prop_map(|(res, pos, what)| Edit::Insert { res, pos, what }),
+            2 => (any::<u16>(), any::<u16>(), 1u8..4).prop_map(|(res, pos, len)| Edit::Delete { res, pos, len }),
+        ];
+        (history_strategy(cfg), 0u8..4, edit, proptest::bool::weighted(0.3))
+            .prop_map(|(hist, mode, edit, cbor)| Case { hist, mode, edit, cbor })
+            .boxed()
+    }
+
+    fn run(&self, case: &Case) -> Outcome {
+        let mut out = Outcome::new();
+        let mut m = Machine::new(false);
+        for op in &case.hist.ops {
+            let s = m.apply(op);
+            if s.skipped.is_some() {
+                continue;
+            }
+            if s.panic.is_some() || s.result.is_err() || s.mismatch.is_some() {
+                out.label("stopped_at_foreign_divergence");
+                return out;
+            }
+        }
+        let mut store = m.store;
+        out.label(["checksum", "text", "both", "auto"][(case.mode % 4) as usize]);
+        match catch(|| store.protect_text(mode_of(case.mode))) {
+            Ok(Ok(())) => {}
+            Ok(Err(e)) => {
+                out.fail("protect", "err", format!("protect_text failed: {}", e));
+                return out;
+            }
+            Err(p) => {
+                out.fail("protect", p.signature(), format!("protect_text panicked at {}:{}: {}", p.file, p.line, p.msg));
+                return out;
+            }
+        }
+        // ---- (A) unchanged text
+        let check_valid = |store: &AnnotationStore, stage: &str, out: &mut Outcome| -> Option<Vec<(usize, String, Option<bool>)>> {
+            let t = match catch(|| (texts(store), {
+                let r = store.validate_text(true);
+                (r.valid(), r.invalid(), r.missing())
+            })) {
+                Ok(x) => x,
+                Err(p) => {
+                    out.fail("validate", format!("{}|{}", p.signature(), stage), format!("[{}] validation panicked at {}:{}: {}", stage, p.file, p.line, p.msg));
+                    return None;
+                }
+            };
+            let (ts, (valid, invalid, _missing)) = t;
+            let with_text = ts.iter().filter(|x| !x.1.is_empty()).count();
+            out.checks += 2 + ts.len() as u64;
+            if invalid != 0 {
+                out.fail("unchanged.invalid", stage, format!("[{}] validate_text reports {} invalid annotations although no text changed", stage, invalid));
+            }
+            if valid != with_text {
+                out.fail("unchanged.valid", stage, format!("[{}] validate_text reports {} valid annotations, {} annotations select text", stage, valid, with_text));
+            }
+            for (i, text, v) in &ts {
+                if !text.is_empty() && *v != Some(true) {
+                    out.fail("unchanged.annotation", format!("{}|{:?}", stage, v), format!("[{}] annotation #{} (text {:?}) validates to {:?}", stage, i, text, v));
+                }
+            }
+            Some(ts)
+        };
+        let Some(protected) = check_valid(&store, "protected", &mut out) else { return out };
+        if !out.failures.is_empty() {
+            return out;
+        }
+        if protected.iter().any(|x| x.1.chars().count() >= 40) {
+            out.label("long_text");
+        }
+        if protected.iter().all(|x| x.1.is_empty()) {
+            out.label("no_text_annotation");
+        }
+        // ---- (B) save and reload
+        let json = match catch(|| store.to_json_string(store.config())) {
+            Ok(Ok(s)) => s,
+            _ => {
+                out.label("stopped_at_foreign_divergence");
+                return out;
+            }
+        };
+        if case.cbor {
+            out.label("reload_cbor");
+            let dir = TempDir::new("c18");
+            let f = dir.path("p.store.stam.cbor");
+            match catch(|| store.to_file(&f).and_then(|_| AnnotationStore::from_file(&f, Config::default()))) {
+                Ok(Ok(s2)) => {
+                    check_valid(&s2, "reloaded-cbor", &mut out);
+                }
+                _ => {
+                    out.label("stopped_at_foreign_divergence");
+                    return out;
+                }
+            }
+        } else {
+            out.label("reload_json");
+            match catch(|| AnnotationStore::from_str(&json, Config::default())) {
+                Ok(Ok(s2)) => {
+                    check_valid(&s2, "reloaded-json", &mut out);
+                }
+                _ => {
+                    out.label("stopped_at_foreign_divergence");
+                    return out;
+                }
+            }
+        }
+        if !out.failures.is_empty() {
+            return out;
+        }
+        // ---- (C) edited text
+        let Ok(mut doc) = serde_json::from_str::<serde_json::Value>(&json) else {
+            out.label("stopped_at_foreign_divergence");
+            return out;
+        };
+        let nres = doc.get("resources").and_then(|r| r.as_array()).map(|a| a.len()).unwrap_or(0);
+        if nres == 0 {
+            return out;
+        }
+        let (ri, kind) = match &case.edit {
+            Edit::Substitute { res, .. } => (pick(*res, nres), "substitute"),
+            Edit::Insert { res, .. } => (pick(*res, nres), "insert"),
+            Edit::Delete { res, .. } => (pick(*res, nres), "delete"),
+        };
+        out.label(kind);
+        let old: Vec<char> = doc["resources"][ri]["text"].as_str().unwrap_or("").chars().collect();
+        let mut new = old.clone();
+        match &case.edit {
+            Edit::Substitute { pos, with, .. } => {
+                if old.is_empty() {
+                    return out;
+                }
+                let p = pick(*pos, old.len());
+                new[p] = if old[p] == *with { '#' } else { *with };
+            }
+            Edit::Insert { pos, what, .. } => {
+                let p = pick(*pos, old.len() + 1);
+                let w: Vec<char> = if what.is_empty() { vec!['+'] } else { what.chars().collect() };
+                for (k, c) in w.into_iter().enumerate() {
+                    new.insert(p + k, c);
+                }
+            }
+            Edit::Delete { pos, len, .. } => {
+                if old.is_empty() {
+                    return out;
+                }
+                let p = pick(*pos, old.len());
+                let l = (*len as usize).min(old.len() - p);
+                new.drain(p..p + l);
+            }
+        }
+        doc["resources"][ri]["text"] = serde_json::Value::String(new.iter().collect());
+        let edited = ordered_doc(&doc);
+        let store3 = match catch(|| AnnotationStore::from_str(&edited, Config::default())) {
+            Ok(Ok(s)) => s,
+            Ok(Err(_)) => {
+                out.label("reload_rejected_after_edit");
+                return out;
+            }
+            Err(p) => {
+                out.fail("edited.load", p.signature(), format!("loading the store with the edited text panicked at {}:{}: {}", p.file, p.line, p.msg));
+                return out;
+            }
+        };
+        let after = match catch(|| texts(&store3)) {
+            Ok(t) => t,
+            Err(p) => {
+                out.fail("edited.validate", p.signature(), format!("validating after the edit panicked at {}:{}: {}", p.file, p.line, p.msg));
+                return out;
+            }
+        };
+        if after.len() != protected.len() {
+            out.label("stopped_at_foreign_divergence");
+            return out;
+        }
+        let mut changed = 0;
+        let mut untouched = 0;
+        for ((i, before_text, before_v), (_, now_text, v)) in protected.iter().zip(after.iter()) {
+            if before_text.is_empty() || *before_v != Some(true) {
+                continue; // was not protected (selects no text)
+            }
+            out.checks += 1;
+            let differs = before_text != now_text;
+            if differs {
+                changed += 1;
+            } else {
+                untouched += 1;
+            }
+            match (differs, v) {
+                (true, Some(false)) | (false, Some(true)) => {}
+                (true, other) => out.fail(
+                    "edited.missed",
+                    format!("{}|{}|{:?}", ["checksum", "text", "both", "auto"][(case.mode % 4) as usize], kind, other),
+                    format!("annotation #{}: protected text {:?}, now selects {:?}, but validates to {:?}", i, before_text, now_text, other),
+                ),
+                (false, other) => out.fail(
+                    "edited.false-alarm",
+                    format!("{}|{}|{:?}", ["checksum", "text", "both", "auto"][(case.mode % 4) as usize], kind, other),
+                    format!("annotation #{}: text {:?} is unchanged, but validates to {:?}", i, before_text, other),
+                ),
+            }
+        }
+        if changed > 0 {
+            out.label("edit_hits_annotation");
+        }
+        out.nontrivial = changed > 0 && untouched > 0;
+        // aggregate must agree with the per-annotation verdicts
+        if out.failures.is_empty() {
+            if let Ok(r) = catch(|| {
+                let r = store3.validate_text(true);
+                (r.valid(), r.invalid())
+            }) {
+                out.checks += 1;
+                let exp_invalid = after.iter().filter(|x| x.2 == Some(false)).count();
+                let exp_valid = after.iter().filter(|x| x.2 == Some(true)).count();
+                if r != (exp_valid, exp_invalid) {
+                    out.fail("edited.aggregate", kind, format!("validate_text reports (valid, invalid) = {:?}, the per-annotation verdicts give ({}, {})", r, exp_valid, exp_invalid));
+                }
+            }
+        }
+        out
     }
 }
